@@ -412,7 +412,9 @@ def rule_snapshot_fields(ctx):
         if not missing:
             ctx.ok(site(fn, 0), "%s writes %s" % (fnname, sorted(want)))
         for x in sorted(extra_fields):
-            ctx.fail_closed("new Snapshot field `%s`: not covered by the clear/update completeness rule" % x)
+            # a field the rules do not know: `update` must still write it on every path (it is in `want` for update);
+            # `clear` is free to keep it (e.g. a generation counter)
+            ctx.note("new Snapshot field `%s`: required to be written by every path of Snapshot::update" % x)
     # update takes the worker's stream handle
     up = get_fn(facts, "nucleo", "Snapshot::<T>::update")
     for bi, si, s in field_assigns(up, "items", "Snapshot<"):
